@@ -1,2 +1,292 @@
-(* Property C12 - statements only (proofs in Proofs/C12.v). Not built yet. *)
-From SC.Model Require Import Base.
+(* Property C12 - unit conversion matches the unit definitions; linear, invertible, transitive;
+   no conversion between kinds; arithmetic between quantities.
+   STATEMENTS ONLY (proofs: Proofs/C12.v).
+
+   Model functions: Items.unit_loop / calculate_unit / dyn_convert (DynamicTypeItem::convert),
+   Items.calculate on IDynamicType, Api.basic_execute, Run64.default_config (the configuration the
+   model's loader makes of the regenerated Gen/ConfigData.d_types_raw / d_type_conv).
+   Spec: Spec/Units.v (size of every unit in mm / mg / bit, written from the property text).
+
+   How the statements fit together.  The conversion chain is data: every unit has an upgrade and
+   a downgrade code string, every bridge two more; the model substitutes the printed amount into
+   the code and evaluates the text through [bexec] (= basic_execute: lexer, parser, interpreter).
+     - C12_codes_shaped: every code of the table is "{value}", "{value} * c" or "{value} / c".
+     - C12_convert_is_path: for EVERY number algebra, configuration and evaluator [bexec] that
+       computes [step sh x] on a code of shape [sh] with x substituted, dyn_convert performs exactly
+       the steps of [conv_path] (the model's chain walk with the evaluator left out), in order, for
+       all amounts.
+     - C12_factor_table (finite-table, all ordered pairs of one kind x every name of the target,
+       incl. across the metric/imperial bridge): the path exists, ends in the target unit, and the
+       product of its constants is size u / size v of the specification; C12_convert_exact,
+       C12_linear, C12_inverse, C12_transitive: for all amounts, in exact arithmetic.
+     - C12_kinds / C12_cross_kind_declines: for every evaluator, dyn_convert on the loaded table
+       never yields a unit of another kind.
+     - C12_calc_*: Items.calculate on quantities, for every number algebra.
+     - C12_basic_execute_separators / C12_convert_separators: the conversion is the same under every
+       decimal / thousands separator configuration (proved for all inputs).
+   NOT proved for all amounts: [evaluates basic_execute default_config gstep], i.e. that the
+   faithful evaluator at binary64 (print the amount, substitute, lex, parse, evaluate) computes
+   amount * c resp. amount / c.  It is executed bit for bit on samples x every code
+   (C12_evaluates_on_samples), on all 365 ordered pairs for one amount (C12_faithful_pairs_sample),
+   end to end in C12_examples64, and on every generated case of the
+   correspondence check (tools/props/C12.py), where the binary64 result is also compared with the
+   exact rational factor of an independent oracle. *)
+From Coq Require Import QArith Qcanon Floats.
+From SC.Model Require Import Base Num NumF64 NumQ Types Config Lexer Items RuleFns Api Run64.
+From SC.Spec Require Import Units.
+From SC.Gen Require Import ConfigData.
+From SC.Proofs Require Import C12.
+Open Scope Z_scope.
+
+(* every code string of the regenerated table and of the loaded configuration has a shape *)
+Theorem C12_codes_shaped :
+  (forall code, In code raw_codes -> has_shape code = true) /\
+  (forall u, In u UNITS -> has_shape (dt_up u) = true /\ has_shape (dt_down u) = true) /\
+  (forall tc, In tc CONVS -> has_shape (tc_to_source tc) = true /\ has_shape (tc_to_target tc) = true).
+Proof. exact codes_shaped. Qed.
+
+(* the loaded configuration holds the 33 regenerated units (index, codes, names, family) and the
+   regenerated bridges *)
+Theorem C12_table_loaded :
+  length UNITS = 33%nat /\
+  map (fun g => (fst g, map (fun e => (fst e, dt_index (snd e), dt_up (snd e), dt_down (snd e), dt_names (snd e), dt_group (snd e))) (snd g))) TYPES
+  = map (fun g => (fst g, map (fun it => let '(i, _, _, up, down, names, _, _, _, grp) := it in (i, i, up, down, names, grp)) (snd g)))
+        (fold_left (fun acc g => assoc_insert (fst g) (snd g) acc) d_types_raw []) /\
+  CONVS = d_type_conv.
+Proof. exact table_loaded. Qed.
+
+(* the model's conversion = the steps of the chain walk, in order; every algebra, every
+   configuration, every evaluator that computes the steps, all amounts *)
+Theorem C12_convert_is_path :
+  forall (F : Type) (NF : Num F) (bexec : config F -> str -> res (option F)) (cfg : config F)
+         (step : shape -> F -> F),
+  (forall x code sh, code_shape code = Some sh ->
+     bexec cfg (replace_all (s "{value}") (fdisplay x) code) = Ok (Some (step sh x))) ->
+  forall x src name path tgt,
+  conv_path (cf_types cfg) (cf_type_conv cfg) src name = Some (path, tgt) ->
+  dyn_convert bexec cfg x src name = Ok (Some (fold_left (fun a sh => step sh a) path x, tgt)).
+Proof. exact (@convert_is_path). Qed.
+
+(* within a family the walk is the model's calculate_unit *)
+Theorem C12_calculate_unit_is_path :
+  forall (F : Type) (NF : Num F) (bexec : config F -> str -> res (option F)) (cfg : config F)
+         (step : shape -> F -> F),
+  (forall x code sh, code_shape code = Some sh ->
+     bexec cfg (replace_all (s "{value}") (fdisplay x) code) = Ok (Some (step sh x))) ->
+  forall x src tgt group path,
+  unit_path src tgt group = Some path ->
+  calculate_unit bexec cfg x src tgt group = Ok (Some (fold_left (fun a sh => step sh a) path x)).
+Proof. exact (@calculate_unit_path). Qed.
+
+(* in exact arithmetic the steps applied in order are one multiplication: linear in the amount *)
+Theorem C12_run_q_linear : forall p x,
+  fold_left (fun a sh => qstep sh a) p x = (x * path_factor p)%Qc.
+Proof. exact run_q_linear. Qed.
+
+(* every unit of the table is a unit of the statement, under each of its names, with one
+   non-zero size *)
+Theorem C12_spec_total : forall u, In u UNITS ->
+  exists k su, unit_spec u = Some (k, su) /\ su <> 0%Qc /\
+               forall n, In n (dt_names u) -> spec_unit n = Some (k, su).
+Proof. exact spec_total. Qed.
+
+(* all ordered pairs of one kind (within and across the metric/imperial families), every name of
+   the target: the path exists, reaches the target, and its factor is size u / size v *)
+Theorem C12_factor_table : forall u v name k su sv,
+  In u UNITS -> In v UNITS -> In name (dt_names v) ->
+  unit_spec u = Some (k, su) -> unit_spec v = Some (k, sv) ->
+  exists path t, conv_path TYPES CONVS u name = Some (path, t) /\ uref t = uref v /\
+                 path_factor path = factor su sv.
+Proof. exact factor_table. Qed.
+
+(* the table check is sensitive: no offending row now; with the factors config.json had before
+   the repair (kilogram -> hectogram "* 1000", byte -> bit "* 1024") exactly the pairs that cross
+   the wrong link downwards are reported *)
+Theorem C12_old_factors_refuted :
+  offending_on TYPES CONVS = [] /\
+  offending_on (with_down "metric-weight" 7 "{value} * 1000" TYPES) CONVS
+  = flat_map (fun u => map (fun v => (s u, s v)) ["oz"; "lb"; "st"; "mg"; "cg"; "dg"; "g"; "dag"; "hg"]%string)
+             ["kg"; "tonne"]%string /\
+  offending_on (with_down "memory" 2 "{value} * 1024" TYPES) CONVS
+  = map (fun u => (s u, s "bit")) ["byte"; "kb"; "mb"; "gb"; "tb"; "pb"; "eb"; "zb"; "yb"]%string.
+Proof. exact old_factors_refuted. Qed.
+
+Theorem C12_convert_exact : forall u v name k su sv p t,
+  In u UNITS -> In v UNITS -> In name (dt_names v) ->
+  unit_spec u = Some (k, su) -> unit_spec v = Some (k, sv) ->
+  conv_path TYPES CONVS u name = Some (p, t) ->
+  forall x, run_path qstep p x = (x * factor su sv)%Qc.
+Proof. exact convert_exact. Qed.
+
+(* the model on the loaded table, for every evaluator that computes the steps *)
+Theorem C12_convert_pair :
+  forall (bexec : config float -> str -> res (option float)) (step : shape -> float -> float),
+  evaluates bexec default_config step ->
+  forall u v name k su sv, In u UNITS -> In v UNITS -> In name (dt_names v) ->
+  unit_spec u = Some (k, su) -> unit_spec v = Some (k, sv) ->
+  exists path t,
+    (forall x, dyn_convert bexec default_config x u name = Ok (Some (run_path step path x, t))) /\
+    uref t = uref v /\
+    (forall q, run_path qstep path q = (q * factor su sv)%Qc).
+Proof. exact convert_pair. Qed.
+
+Theorem C12_linear : forall p x y c,
+  run_path qstep p (x + y)%Qc = (run_path qstep p x + run_path qstep p y)%Qc /\
+  run_path qstep p (c * x)%Qc = (c * run_path qstep p x)%Qc.
+Proof. exact linear. Qed.
+
+(* A to B and back returns the original amount *)
+Theorem C12_inverse : forall u v nu nv k su sv p1 t1 p2 t2,
+  In u UNITS -> In v UNITS -> In nu (dt_names u) -> In nv (dt_names v) ->
+  unit_spec u = Some (k, su) -> unit_spec v = Some (k, sv) ->
+  conv_path TYPES CONVS u nv = Some (p1, t1) ->
+  conv_path TYPES CONVS v nu = Some (p2, t2) ->
+  forall x, run_path qstep p2 (run_path qstep p1 x) = x.
+Proof. exact inverse. Qed.
+
+(* A to B to C equals A to C *)
+Theorem C12_transitive : forall u v w nv nw k su sv sw p1 t1 p2 t2 p3 t3,
+  In u UNITS -> In v UNITS -> In w UNITS -> In nv (dt_names v) -> In nw (dt_names w) ->
+  unit_spec u = Some (k, su) -> unit_spec v = Some (k, sv) -> unit_spec w = Some (k, sw) ->
+  conv_path TYPES CONVS u nv = Some (p1, t1) ->
+  conv_path TYPES CONVS v nw = Some (p2, t2) ->
+  conv_path TYPES CONVS u nw = Some (p3, t3) ->
+  forall x, run_path qstep p2 (run_path qstep p1 x) = run_path qstep p3 x.
+Proof. exact transitive. Qed.
+
+(* kinds: the only bridges are length-length and weight-weight; whatever the evaluator and the
+   target name, the unit reached has the kind of the source *)
+Theorem C12_bridges :
+  map (fun tc => (tc_src_name tc, tc_tgt_name tc)) CONVS
+  = [(s "imperial-unit-length", s "metric-length"); (s "imperial-unit-weight", s "metric-weight")].
+Proof. exact bridges. Qed.
+
+Theorem C12_kinds : forall (bexec : config float -> str -> res (option float)) x u name y t,
+  In u UNITS ->
+  dyn_convert bexec default_config x u name = Ok (Some (y, t)) ->
+  kind_of_spec (unit_spec t) = kind_of_spec (unit_spec u) /\ kind_of_spec (unit_spec u) <> None.
+Proof. exact kinds. Qed.
+
+Theorem C12_cross_kind_declines :
+  forall (bexec : config float -> str -> res (option float)) x u name k sz ku su,
+  In u UNITS -> spec_unit name = Some (k, sz) -> unit_spec u = Some (ku, su) -> k <> ku ->
+  forall y t, dyn_convert bexec default_config x u name <> Ok (Some (y, t)).
+Proof. exact cross_kind_declines. Qed.
+
+(* arithmetic, for every number algebra *)
+Theorem C12_calc_scale :
+  forall (F : Type) (NF : Num F) (bexec : config F -> str -> res (option F)) (cfg : config F) x u y nt op,
+  calculate bexec cfg (IDynamicType x u) (INumber y nt) op = Ok (Some (IDynamicType (arith op x y) u)).
+Proof. exact (@calc_scale). Qed.
+
+Theorem C12_calc_quantities :
+  forall (F : Type) (NF : Num F) (bexec : config F -> str -> res (option F)) (cfg : config F)
+         x u y u' du du' name0 rest op,
+  unit_of cfg u = Some du -> unit_of cfg u' = Some du' -> dt_names du = name0 :: rest ->
+  calculate bexec cfg (IDynamicType x u) (IDynamicType y u') op =
+  match dyn_convert bexec cfg y du' name0 with
+  | Ok (Some (y', _)) =>
+    Ok (Some (match op with
+              | ODiv => INumber (do_division x y') Decimal
+              | _ => IDynamicType (arith op x y') u
+              end))
+  | Ok None => Ok None
+  | Panic site => Panic site
+  end.
+Proof. exact (@calc_quantities). Qed.
+
+(* quantities of different kinds do not combine, whatever the evaluator *)
+Theorem C12_calc_cross_kind :
+  forall (bexec : config float -> str -> res (option float)) x u y u' du du' op ku su ku' su',
+  unit_of default_config u = Some du -> unit_of default_config u' = Some du' ->
+  In du UNITS -> In du' UNITS ->
+  unit_spec du = Some (ku, su) -> unit_spec du' = Some (ku', su') -> ku <> ku' ->
+  forall r, calculate bexec default_config (IDynamicType x u) (IDynamicType y u') op <> Ok (Some r).
+Proof. exact calc_cross_kind. Qed.
+
+(* the rule `<quantity> to|as|in|into <name>` yields dyn_convert's amount in the unit reached *)
+Theorem C12_rule_convert :
+  forall (F : Type) (NF : Num F) (bexec : config F -> str -> res (option F)) (cfg : config F)
+         vs fs target number u src,
+  has "source" fs = true -> has "type" fs = true ->
+  get_text vs (s "type") fs = Some target ->
+  get_dynamic_type vs (s "source") fs = Some (number, u) ->
+  unit_of cfg u = Some src ->
+  dynamic_type_convert bexec cfg vs fs =
+  match dyn_convert bexec cfg number src target with
+  | Ok (Some (x, d)) => Ok (Some (TDynamicType x (uref d)))
+  | Ok None => Ok None
+  | Panic site => Panic site
+  end.
+Proof. exact (@rule_convert). Qed.
+
+(* every separator configuration: basic_execute (the evaluator of the codes) and hence the whole
+   conversion do not depend on the decimal / thousands separator; every number algebra, every
+   configuration, every text *)
+Theorem C12_basic_execute_separators :
+  forall (F : Type) (NF : Num F) (lx : lexdata) (ck : clock) (cfg : config F) d t data,
+  basic_execute lx ck (set_fmt cfg (cf_money cfg) (cf_number cfg) (cf_percent cfg) d t (cf_tz cfg)) data
+  = basic_execute lx ck cfg data.
+Proof. exact (@basic_execute_separators). Qed.
+
+Theorem C12_convert_separators :
+  forall (F : Type) (NF : Num F) (lx : lexdata) (ck : clock) (cfg : config F) d t x src name,
+  dyn_convert (basic_execute lx ck) (set_fmt cfg (cf_money cfg) (cf_number cfg) (cf_percent cfg) d t (cf_tz cfg)) x src name
+  = dyn_convert (basic_execute lx ck) cfg x src name.
+Proof. exact (@convert_separators). Qed.
+
+(* binary64: the faithful evaluator computes the steps on the samples, for every code *)
+Theorem C12_evaluates_on_samples :
+  forallb (fun x => forallb (sample_ok x) raw_codes) samples = true.
+Proof. exact evaluates_on_samples. Qed.
+
+(* ... and the faithful dyn_convert (with the real basic_execute) performs exactly the abstract
+   steps at binary64 on every ordered pair of one kind, for the amount 2.5 *)
+Theorem C12_faithful_pairs_sample :
+  forallb (fun u => forallb (faithful_pair_ok 2.5 u) UNITS) UNITS = true.
+Proof. exact faithful_pairs_sample. Qed.
+
+(* non-vacuity, through the whole executable pipeline at binary64 *)
+Theorem C12_examples64 :
+  is_qty "1 km to m" 1000 "metric-length" 4 "1.000 Meter" = true /\
+  is_qty "1 inch to mm" 25.4 "metric-length" 1 "25,40 Millimeter" = true /\
+  is_qty "1 kg to hg" 10 "metric-weight" 6 "10 Hectogram" = true /\
+  is_qty "1 byte to bit" 8 "memory" 1 "8bit" = true /\
+  is_qty "1 mile to yard" 1760 "imperial-unit-length" 3 "1.760 Yard" = true /\
+  is_qty "1 stone to oz" 224 "imperial-unit-weight" 1 "224 Ounce" = true /\
+  is_qty "2 gb to mb" 2048 "memory" 4 "2.048MB" = true /\
+  is_qty "3 kg + 500 g" 3.5 "metric-weight" 7 "3,50 Kilogram" = true /\
+  is_qty "1 km / 2" 0.5 "metric-length" 7 "0,50 Kilometer" = true /\
+  is_qty "2 m * 3" 6 "metric-length" 4 "6 Meter" = true /\
+  is_number "10 m / 2 m" 5 = true /\
+  is_number "1 km / 500 m" 2 = true /\
+  is_qty "1 m to bit" 1 "metric-length" 4 "1 Meter" = true /\
+  is_qty "1 oz to mm" 1 "imperial-unit-weight" 1 "1 Ounce" = true /\
+  is_qty "1 kb to inch" 1 "memory" 3 "1KB" = true.
+Proof. exact examples64. Qed.
+
+Print Assumptions C12_codes_shaped.
+Print Assumptions C12_table_loaded.
+Print Assumptions C12_convert_is_path.
+Print Assumptions C12_calculate_unit_is_path.
+Print Assumptions C12_run_q_linear.
+Print Assumptions C12_spec_total.
+Print Assumptions C12_factor_table.
+Print Assumptions C12_old_factors_refuted.
+Print Assumptions C12_convert_exact.
+Print Assumptions C12_convert_pair.
+Print Assumptions C12_linear.
+Print Assumptions C12_inverse.
+Print Assumptions C12_transitive.
+Print Assumptions C12_bridges.
+Print Assumptions C12_kinds.
+Print Assumptions C12_cross_kind_declines.
+Print Assumptions C12_calc_scale.
+Print Assumptions C12_calc_quantities.
+Print Assumptions C12_calc_cross_kind.
+Print Assumptions C12_rule_convert.
+Print Assumptions C12_basic_execute_separators.
+Print Assumptions C12_convert_separators.
+Print Assumptions C12_evaluates_on_samples.
+Print Assumptions C12_faithful_pairs_sample.
+Print Assumptions C12_examples64.
